@@ -383,7 +383,8 @@ def finish(spec: PropSpec, ctx: Optional[Ctx], tier: str, seed: int, t0: float, 
     print("\n".join(out))
     sys.stdout.flush()
 
-    write_evidence(spec, ctx, tier, seed, time.time() - t0, error, new_violations, known_hits, selftest)
+    if os.environ.get("PVS_NO_EVIDENCE") != "1":  # development runs against a deliberately broken tree
+        write_evidence(spec, ctx, tier, seed, time.time() - t0, error, new_violations, known_hits, selftest)
     return status
 
 
